@@ -153,6 +153,14 @@ let op_merge_run = function
       "OK\t" ^ m ^ "\t" ^ S.concat ";" (L.map str (MergeConflict.outp s))
   | _ -> "BADARGS"
 
+(* sbs_adjust side_by_side supplied_minus_style supplied_minus_emph_style option value *)
+let op_sbs_adjust = function
+  | [ sbs; sm; se; o; v ] ->
+      let supplied = function SbsStyles.MinusStyle -> sm = "1" | SbsStyles.MinusEmphStyle -> se = "1" in
+      let o = if o = "minus-style" then SbsStyles.MinusStyle else SbsStyles.MinusEmphStyle in
+      "OK\t" ^ hex_of_text (SbsStyles.adjust GenSbs.code_guard supplied (sbs = "1") o (text_of_hex v))
+  | _ -> "BADARGS"
+
 (* ---- styles (C12, C09) *)
 let color_of_string w =
   if w = "normal" || w = "-" then None
@@ -531,6 +539,7 @@ let dispatch = function
   | "delta_sides" :: args -> op_delta_sides args
   | "delta_safes" :: args -> op_delta_safes args
   | "merge_run" :: args -> op_merge_run args
+  | "sbs_adjust" :: args -> op_sbs_adjust args
   | "blame_run" :: args -> op_blame_run args
   | "blame_spec" :: args -> op_blame_spec args
   | "ping" :: _ -> "pong"
